@@ -8,6 +8,8 @@ Unit 2  the fixed-layout tagged-block payloads of psd/base.py, psd/tagged_blocks
 
 Unit 3  psd/effects_layer.py (`lrFX`): Model/PayloadEffects.lean, Lemmas/PayloadEffects.lean.
 
+Unit 4  psd/patterns.py (`Patt` / `Pat2` / `Pat3`): Model/PayloadPatterns.lean, Lemmas/PayloadPatterns.lean.
+
 Reading guide (units 2-5)
 * every class is a `PCodec`: `c.enc v` is `v.tobytes(...)` (or `struct.error`), `c.dec` the reader at a cursor,
   `c.consumed v` the number of written bytes the reader consumes (some writers end with `write_padding`; no payload
@@ -33,6 +35,7 @@ Reading guide (unit 1)
 import PsdVerif.Lemmas.PayloadLayerInfo2
 import PsdVerif.Lemmas.PayloadSimple
 import PsdVerif.Lemmas.PayloadEffects
+import PsdVerif.Lemmas.PayloadPatterns
 import PsdVerif.Lemmas.PayloadSamples
 import PsdVerif.Model.PayloadTables
 
@@ -617,5 +620,64 @@ theorem unit3_registry_tied : Generated.Payload.unit3Registry = Tables.unit3Regi
 theorem unit3_calls_tied : Generated.Payload.unit3Calls = Tables.unit3Calls := by decide +kernel
 
 end unit3
+
+/-! ## unit 4: patterns.py -/
+
+section unit4
+open PCodec
+
+/-- one channel: not written · written without content (`depth is None`) · geometry + (opaque) pixel bytes, read back with
+`fp.read(length - 23)` -/
+theorem virtual_memory_array_roundtrip : RoundTrip VMA.codec := roundTrip_of VMA.rt
+theorem virtual_memory_array_rewrite_identical : RewriteIdentical VMA.codec := rewriteIdentical_of VMA.rt.atEnd
+theorem virtual_memory_array_written_is_length : WrittenIsLength VMA.codec := writtenIsLength_of VMA.count
+
+/-- `num_channels + 2` arrays inside a length block -/
+theorem virtual_memory_array_list_roundtrip : RoundTrip VMAL.codec := roundTrip_of VMAL.rt
+theorem virtual_memory_array_list_rewrite_identical : RewriteIdentical VMAL.codec := rewriteIdentical_of VMAL.rt.atEnd
+theorem virtual_memory_array_list_written_is_length : WrittenIsLength VMAL.codec := writtenIsLength_of VMAL.count
+
+theorem pattern_roundtrip : RoundTrip Pattern.codec := roundTrip_of Pattern.rt
+theorem pattern_rewrite_identical : RewriteIdentical Pattern.codec := rewriteIdentical_of Pattern.rt.atEnd
+theorem pattern_written_is_length : WrittenIsLength Pattern.codec := writtenIsLength_of Pattern.count
+
+/-- `while is_readable(fp, 4)`: at the end of a stream -/
+theorem patterns_roundtrip_at_end : RoundTripAtEnd Patterns.codec := roundTripAtEnd_of Patterns.rt
+theorem patterns_rewrite_identical : RewriteIdentical Patterns.codec := rewriteIdentical_of Patterns.rt
+theorem patterns_written_is_length : WrittenIsLength Patterns.codec := writtenIsLength_of Patterns.count
+theorem tagged_block_patterns : TaggedBlockPayload Patterns.codec := taggedBlockPayload_of Patterns.rt
+
+/-! ### non-vacuity -/
+
+theorem unit4_samples_wf : Patterns.codec.WF Samples.patterns ∧ Patterns.codec.Fits Samples.patterns := by decide +kernel
+
+example : ∃ bs, Patterns.codec.enc Samples.patterns = .ok bs ∧ bs.length % 4 = 0 ∧
+    Patterns.codec.dec bs 0 = .ok (Samples.patterns, bs.length) := by
+  have henc : Patterns.codec.enc Samples.patterns = .ok (Patterns.codec.encT Samples.patterns) := if_pos unit4_samples_wf.2
+  refine ⟨_, henc, by decide +kernel, ?_⟩
+  have hc : Patterns.codec.consumed Samples.patterns = (Patterns.codec.encT Samples.patterns).length := rfl
+  simpa [hc] using patterns_roundtrip_at_end _ unit4_samples_wf.1 _ [] henc
+
+/-! ### points excluded by `WF` -/
+
+/-- `VirtualMemoryArray(is_written=0, depth=8, ...)`: an array that is not written stores its flag only -/
+theorem unwritten_array_with_content_not_roundtrip :
+    VMA.codec.enc Samples.vmaUnwrittenContent = .ok [0, 0, 0, 0] ∧ VMA.codec.dec [0, 0, 0, 0] 0 = .ok (Samples.vmaUnwritten, 4) := by
+  decide +kernel
+
+/-- (F) `Pattern(image_mode=RGB, color_table=[])`: the empty table is written as nothing and re-read as `None` -/
+theorem pattern_empty_color_table_not_roundtrip :
+    Pattern.codec.enc Samples.patternEmptyTable = Pattern.codec.enc Samples.patternRgb ∧
+      Samples.patternEmptyTable ≠ Samples.patternRgb ∧ Pattern.codec.WF Samples.patternRgb := by decide +kernel
+
+/-! ### ties -/
+
+theorem unit4_tied :
+    Generated.Payload.colorModeIndexed = Tables.colorModeIndexed ∧ Generated.Payload.patternConditions = Tables.patternConditions ∧
+      Generated.Payload.unit4Registry = Tables.unit4Registry := by decide +kernel
+
+theorem unit4_calls_tied : Generated.Payload.unit4Calls = Tables.unit4Calls := by decide +kernel
+
+end unit4
 
 end PsdVerif.C01Payload
